@@ -24,8 +24,15 @@ Kind(ev)   == ev.op.op
 Caller(ev) == ev.op.caller
 EvsOf(ev, act) == SelectSeq(ev.res.events, LAMBDA e : e.action = act)
 SwapEvs(ev)    == EvsOf(ev, "swap")
-SwapEvsOn(ev, p) == SelectSeq(ev.res.events, LAMBDA e : e.action = "swap" /\ e.contract = p)
-EvsOn(ev, act, p) == SelectSeq(ev.res.events, LAMBDA e : e.action = act /\ e.contract = p)
+\* A response event counts as a swap / provision report only if it carries the attributes the clauses read; an event of
+\* that action without them (a change that returns early with a reduced attribute list, say) reports nothing, and the
+\* balance-based clauses (C02 declared, C07, C09) judge the step.
+SwapFields == {"contract", "receiver", "offer_asset", "ask_asset", "offer_amount", "return_amount", "spread_amount", "commission_amount"}
+HasFields(e, F) == F \subseteq DOMAIN e
+SwapEvsOn(ev, p) == SelectSeq(ev.res.events, LAMBDA e : e.action = "swap" /\ HasFields(e, SwapFields) /\ e.contract = p)
+EvsOn(ev, act, p) ==
+    SelectSeq(ev.res.events, LAMBDA e : e.action = act /\ HasFields(e, {"contract"} \cup (IF act = "provide_liquidity" THEN {"share"} ELSE {}))
+                                         /\ e.contract = p)
 
 (***************************************************************************)
 (* shapes of operations                                                    *)
@@ -162,6 +169,14 @@ C02_Settle(pre, ev, post) ==
                IN  /\ recv = DesignatedRecv(ev)
                    /\ \A X \in {trader, p, recv} : \A Y \in {O, A} :
                           NAdd(Bal(pre, Y, X), In(X, Y)) = NAdd(Bal(post, Y, X), Out(X, Y))
+
+\* ... and, whatever the response reports: a successful swap sent to a pair (directly or through the cw20 hook) that
+\* names one of the pair's assets as its offer raises the pair's balance of that asset by exactly the named amount
+C02_Declared(pre, ev, post) ==
+    (TxOk(ev) /\ IsSwapTx(ev) /\ SwapPair(ev) \in Pairs(pre) /\ SwapTrader(ev) # SwapPair(ev)
+        /\ SwapDecl(ev).offer.info \in {pre.pair[SwapPair(ev)].a0, pre.pair[SwapPair(ev)].a1}) =>
+        LET p == SwapPair(ev)  O == SwapDecl(ev).offer.info IN
+        Bal(post, O, p) = NAdd(Bal(pre, O, p), SwapDecl(ev).offer.amount)
 
 (***************************************************************************)
 (* C04  withdrawal pays the pro-rata share                                 *)
@@ -464,6 +479,14 @@ C06_ConfiguredRate(pre, ev, post) ==
     (Kind(ev) = "fac_create_pair" /\ TxOk(ev) /\ ev.op.commission.some /\ RegHas(post, ev.op.infos[1], ev.op.infos[2])) =>
         LET e == RegEntry(post, ev.op.infos[1], ev.op.infos[2]) IN
         e.pair \in Pairs(post) => post.pair[e.pair].commission = ev.op.commission.v
+
+\* the first-provision gate of a created pair (whitelist, both minimums, each in its own position) is the one asked for
+C05_ConfiguredGate(pre, ev, post) ==
+    (Kind(ev) = "fac_create_pair" /\ TxOk(ev) /\ RegHas(post, ev.op.infos[1], ev.op.infos[2])) =>
+        LET e == RegEntry(post, ev.op.infos[1], ev.op.infos[2]) IN
+        e.pair \in Pairs(post) =>
+            /\ post.pair[e.pair].wl = Range(ev.op.whitelist)
+            /\ post.pair[e.pair].m0 = ev.op.min0 /\ post.pair[e.pair].m1 = ev.op.min1
 
 RecMatches(w, rec, e) ==
     /\ rec.pair = e.pair /\ rec.a0 = e.a0 /\ rec.a1 = e.a1 /\ rec.lp = e.lp
